@@ -191,6 +191,11 @@ func (x *Index) InitBlobSource(blobSource blobserver.FetcherEnumerator) {
 	if x.KeyFetcher == nil {
 		x.KeyFetcher = blobSource
 	}
+	if len(x.readyReindex) > 0 {
+		// blobs whose dependencies were all indexed when the process last stopped
+		x.reindexWg.Add(1)
+		go x.indexReadyBlobs(context.Background())
+	}
 }
 
 // New returns a new index using the provided key/value storage implementation.
@@ -1845,23 +1850,45 @@ func (x *Index) Close() error {
 //
 // x.mu must be held.
 func (x *Index) initNeededMapsLocked() (err error) {
+	type edge struct{ have, missing blob.Ref }
+	var edges []edge
 	it := x.queryPrefix(keyMissing)
-	defer closeIterator(it, &err)
 	for it.Next() {
 		key := it.KeyBytes()
 		pair := key[len("missing|"):]
 		pipe := bytes.IndexByte(pair, '|')
 		if pipe < 0 {
+			it.Close()
 			return fmt.Errorf("Bogus missing key %q", key)
 		}
 		have, ok1 := blob.ParseBytes(pair[:pipe])
 		missing, ok2 := blob.ParseBytes(pair[pipe+1:])
 		if !ok1 || !ok2 {
+			it.Close()
 			return fmt.Errorf("Bogus missing key %q", key)
 		}
-		x.noteNeededMemoryLocked(have, missing)
+		edges = append(edges, edge{have, missing})
 	}
-	return
+	if err := it.Close(); err != nil {
+		return err
+	}
+	// An edge whose dependency got indexed before the process stopped is
+	// satisfied; a blob left without open needs is indexed as soon as the
+	// blob source is known (InitBlobSource).
+	var satisfied []blob.Ref
+	for _, e := range edges {
+		if v, err := x.s.Get("have:" + e.missing.String()); err == nil && strings.HasSuffix(v, "|indexed") {
+			satisfied = append(satisfied, e.have)
+			continue
+		}
+		x.noteNeededMemoryLocked(e.have, e.missing)
+	}
+	for _, have := range satisfied {
+		if len(x.needs[have]) == 0 {
+			x.readyReindex[have] = true
+		}
+	}
+	return nil
 }
 
 func (x *Index) noteNeeded(have, missing blob.Ref) error {
